@@ -63,6 +63,7 @@ inductive Role where
 /-- What `add_objects` can be handed (lists are `Op.addList`). -/
 inductive Obj where
   | obstacle (r : Role) (id : Nat)
+  | obstacleOn (r : Role) (id : Nat) (on : List Nat)   -- static / dynamic obstacle with `initial_shape_lanelet_ids = on`
   | lanelet (l : Lanelet)
   | sign (id : Nat)
   | light (id : Nat)
@@ -85,6 +86,9 @@ inductive Op where
   | removeInters (is : List Inter)
   | replaceNet (n : Net)
   | genId
+  | eraseNet                                     -- erase_lanelet_network()
+  | removeHanging (ls : List Lanelet)            -- remove_hanging_lanelet_members([..]) called directly
+  | setRefs (id : Nat) (signs lights : List Nat) -- `lanelet.traffic_signs = ..; lanelet.traffic_lights = ..` on a contained lanelet
   deriving DecidableEq, Repr, Inhabited
 
 inductive Out where
@@ -200,10 +204,22 @@ def addNetwork (s : St) (n : Net) : St × Out :=
   onMarked (markMany s (netIds n)) fun s1 =>
     { s1 with idSet := s1.idSet.filter (fun k => k ∉ netIds s.net), net := n }
 
+/-- `add_objects` of a static / dynamic obstacle that carries a lanelet assignment: the id is marked and the obstacle
+    stored, THEN it is registered on its lanelets — `find_lanelet_by_id(l).…_obstacles_on_lanelet` raises
+    AttributeError for a lanelet that does not exist (skipped altogether while the network has no lanelets): the call
+    fails half-way, the obstacle stays in (scenario.py:722-730, 768-777, 825-838). -/
+def addObstacleOn (s : St) (r : Role) (k : Nat) (on : List Nat) : St × Out :=
+  match mark s k with
+  | (s1, none) =>
+    (putObstacle s1 r k,
+      if s1.net.lanelets.isEmpty ∨ ∀ x ∈ on, x ∈ s1.net.lanelets.map (·.id) then .ok else .err .attr)
+  | (s1, some e) => (s1, .err e)
+
 /-- `add_objects` for one object (scenario.py:718-765). -/
 def addObj (s : St) (o : Obj) (refs : List Nat) : St × Out :=
   match o with
   | .obstacle r k => onMarked (mark s k) fun s1 => putObstacle s1 r k
+  | .obstacleOn r k on => addObstacleOn s r k on
   | .lanelet l => onMarked (mark s l.id) fun s1 => { s1 with net := s1.net.addLanelet l }
   | .sign k => onMarked (mark s k) fun s1 => { s1 with net := s1.net.addSign k refs }
   | .light k => onMarked (mark s k) fun s1 => { s1 with net := s1.net.addLight k refs }
@@ -314,6 +330,15 @@ def genId (s : St) : St × Out :=
   let c1 := if s.idSet.isEmpty then c0 else max c0 (listMax s.idSet)
   ({ s with counter := some (c1 + 1) }, .id (c1 + 1))
 
+/-- `remove_hanging_lanelet_members(ls)` called directly: the first half of `remove_lanelet`. -/
+def removeHanging (s : St) (ls : List Lanelet) : St × Out :=
+  andThen (removeSigns s (hangingSigns s ls)) (fun s1 => removeLights s1 (hangingLights s ls))
+
+/-- the user re-assigns the sign / light references of a contained lanelet (setters of `Lanelet`) -/
+def setRefs (s : St) (k : Nat) (signs lights : List Nat) : St :=
+  { s with net := { s.net with lanelets := s.net.lanelets.map fun l =>
+      if l.id = k then { l with signs := signs, lights := lights } else l } }
+
 def step (s : St) : Op → St × Out
   | .add o refs => addObj s o refs
   | .addList os refs => addList s os refs
@@ -328,6 +353,9 @@ def step (s : St) : Op → St × Out
   | .removeInters is => removeInters s is
   | .replaceNet n => replaceNet s n
   | .genId => genId s
+  | .eraseNet => erase s
+  | .removeHanging ls => removeHanging s ls
+  | .setRefs k signs lights => (setRefs s k signs lights, .ok)
 
 /-- A whole history: the state after it and the outcome of every operation. -/
 def run : St → List Op → St × List Out
